@@ -291,11 +291,12 @@ fn expected_light(w: &World, fam: Family, n: i32) -> (Vec<Option<Option<i64>>>, 
 
 pub fn alternating_with_anchor(ctx: &mut Ctx, prop: &'static str, fam: Family) -> SubReport {
     let w = world();
-    let anchors = [w.cal.min_day, w.cal.day_number(2000, 1, 1)];
+    // anchors in February (the month whose length differs from every other month's, and between years)
+    let anchors = [w.cal.day_number(1, 2, 28), w.cal.day_number(2000, 2, 29)];
     let exp_anchor: Vec<(Vec<Option<Option<i64>>>, String)> = anchors.iter().map(|&a| expected_light(w, fam, a)).collect();
     let total = w.cal.total_days() as u64;
     let ea = &exp_anchor;
-    let r = ctx.sweep("alternating_with_anchor_all_dates", "the call sequence a, b1, a, b2, a, b3, ... on one thread for every date b and two anchors a (0001-01-01, 2000-01-01): every result of both is compared with the reference", total, 4096, |range, acc| {
+    let r = ctx.sweep("alternating_with_anchor_all_dates", "the call sequence a, b1, a, b2, a, b3, ... on one thread for every date b and two anchors a (0001-02-28, 2000-02-29): every result of both is compared with the reference", total, 4096, |range, acc| {
         let fmt = sqldatetime::Formatter::try_new("YYYY-MM-DD DDD").unwrap();
         for idx in range {
             let b = w.cal.min_day + idx as i32;
